@@ -401,6 +401,7 @@ theorem C08_any_path_generic (cfg : Cfg) (t : TCfg) (f : Flags) (opts : Options)
     (hzs : zs ≠ []) (hlen : ∀ z ∈ zs, z.length < 2 ^ 32) (hinf : cfg.inflate zs.flatten = some (raw, true))
     (hraw : RawOk h raw) (hpost : ∀ c ∈ post, c.1 ≠ IDAT ∧ c.1 < 2 ^ 32 ∧ c.2.length < 2 ^ 32)
     (hod0 : depthOk (t.outColorDepth h.info f).2 = true) (hsize : outLineSize t h.info f h.width * h.height < 2 ^ 64)
+    (hsize2 : outLineSize t i f h.width * h.height < 2 ^ 64)
     (hlimit : outLineSize t i f h.width ≤ dA.limit)
     (hfile : (signature ++ chunk cfg IHDR h.body ++ anc ++ idats cfg zs ++ chunks cfg post ++ chunk cfg IEND []).length < 2 ^ 32)
     (ops : List PathOp) :
@@ -416,9 +417,9 @@ theorem C08_any_path_generic (cfg : Cfg) (t : TCfg) (f : Flags) (opts : Options)
       specPixelsT h (t.conv f i) (outLineSize t i f h.width) (samplesOf (t.outColorDepth i f).1 * (t.outColorDepth i f).2) raw
         (List.replicate (outLineSize t i f h.width * h.height) p) = some px := by
   obtain ⟨r0, h0, hpb, hrem⟩ := stillT_start cfg hI hC t f opts limit h hv anc dA i hanc hidle hiA hstill zs raw post hzs hlen
-    hinf hpost hod0 hsize hlimit
+    hinf hpost hod0 hsize (legal_pos hcv.outLegal).2.2 hsize2 hlimit
   obtain ⟨buf, hrun, hspec, hbl⟩ := C08.C08_decode_generic cfg t f opts limit h anc dA i zs raw post p hI hC hv hanc hidle hiA
-    hcv hzs hlen hinf hraw hpost hod0 hsize hlimit
+    hcv hzs hlen hinf hraw hpost hod0 hsize hsize2 hlimit
   generalize signature ++ chunk cfg IHDR h.body ++ anc ++ idats cfg zs ++ chunks cfg post ++ chunk cfg IEND [] = file at *
   have hr : readerOf cfg t opts limit f file = r0 := by unfold readerOf; rw [h0]
   rw [hr]
@@ -471,7 +472,8 @@ theorem C08_any_path (cfg : Cfg) (f : Flags) (opts : Options) (limit : Nat) (h :
   have hols := realT_outLine hti f h.width
   obtain ⟨r0, h0, hpb, hrem⟩ := stillT_start cfg hI hC realT f opts limit h hv anc dA j hanc hidle hiA hstill zs raw post hzs
     hlen hinf hpost (realT_out_header_depthOk hti hdec.legal hc0 hd0 rfl rfl f)
-    (Nat.lt_of_le_of_lt (Nat.mul_le_mul_right _ hle) (by rw [hols]; exact hsize)) (by rw [hols]; exact hlimit)
+    (Nat.lt_of_le_of_lt (Nat.mul_le_mul_right _ hle) (by rw [hols]; exact hsize))
+    (legal_pos (realT_converts hti hdec f h.width).outLegal).2.2 (by rw [hols]; exact hsize) (by rw [hols]; exact hlimit)
   obtain ⟨buf, hrun, hspec, hbl⟩ := C08.C08_decode cfg f opts limit h anc dA j ti zs raw post p hI hC hv hanc hidle hiA hti hdec
     hzs hlen hinf hraw hpost hsize hlimit
   generalize signature ++ chunk cfg IHDR h.body ++ anc ++ idats cfg zs ++ chunks cfg post ++ chunk cfg IEND [] = file at *
